@@ -261,11 +261,10 @@ theorem filter_within_view (s : State) (vi : Nat) (v : View) (keep : List Bool) 
     ∀ t ∈ (opFilter { s with log := [] } vi keep detAt det).2.log, InView v t :=
   (opFilter_spec keep detAt det (s := { s with log := [] }) hv (ctx0 hi) (pRange_inView v)).log
 
-/-- `ArrayBuffer.prototype.slice` only reads the receiver -/
+/-- `ArrayBuffer.prototype.slice` touches only the receiver buffer -/
 theorem abSlice_within_buffer (s : State) (b : Nat) (st fi : Option IArg) (hi : Inv s) :
-    ∀ t ∈ (opABSlice { s with log := [] } b st fi).2.log, t.buf = b ∧ t.write = false ∨ t.buf = b :=
-  (opABSlice_spec b st fi (s := { s with log := [] }) (P := fun t => t.buf = b ∧ t.write = false ∨ t.buf = b) (ctx0 hi)
-    (fun _ _ _ _ _ => Or.inr rfl)).log
+    ∀ t ∈ (opABSlice { s with log := [] } b st fi).2.log, t.buf = b :=
+  (opABSlice_spec b st fi (s := { s with log := [] }) (P := fun t => t.buf = b) (ctx0 hi) (fun _ _ _ _ _ => rfl)).log
 
 /-! ## bytes_eq_spec: the bytes an operation leaves behind, as a function of the byte array before it -/
 
@@ -627,7 +626,7 @@ example : ((run {} [.newBuf [0, 1, 2, 3, 4, 5, 6, 7], .newView .u8 0 (some ⟨0,
 example : ((run {} [.newBuf [1, 2, 3, 4, 5, 6, 7, 8], .newView .u8 0 (some ⟨4, []⟩) (some ⟨4, []⟩) [],
     .of_ (.user 0 []) [⟨.int 9, []⟩, ⟨.int 10, []⟩]]).bufs) = [some [1, 2, 3, 4, 9, 10, 7, 8]] := by decide
 -- the hypotheses of fill_bytes_eq_spec are satisfiable (fill succeeds on a concrete state)
-example : (opFill exState 0 ⟨.int 7, []⟩ none none).1 = .ok := by decide
+example : (opFill exState 0 ⟨.int 7, []⟩ none none).1.isOk = true := by decide
 -- an adversarial fill (start.valueOf detaches the buffer) throws and touches nothing
 example : (step { exState with log := [] } (.fill 0 ⟨.int 7, []⟩ (some ⟨0, [0]⟩) none)).2.log = [] := by decide
 
